@@ -78,6 +78,12 @@ type opBucket struct {
 	log  []opRec
 
 	failOp       int  // fail (without applying) the operation with this global number; 0 = none
+	// cancelAfterOp: once the operation with this number was carried out, the caller's context is
+	// cancelled (cancel) and every later operation fails with context.Canceled, as a bucket client
+	// that honours the context does; armCancel re-arms it for the next call of the component.
+	cancelAfterOp int
+	cancel        func()
+	cancelled     bool
 	freezeMut    int  // crash at this mutation; 0 = none
 	freezeBefore bool // true: park before applying mutation freezeMut; false: apply it, then park
 	// every mutation after the freeze point parks without being applied.
@@ -113,11 +119,43 @@ func (b *opBucket) opLog() []opRec {
 	return append([]opRec(nil), b.log...)
 }
 
+func (b *opBucket) armCancel(cancel func()) {
+	b.mu.Lock()
+	b.cancel, b.cancelled = cancel, false
+	b.mu.Unlock()
+}
+
+// cancelNow cancels the caller's context before it issued any operation.
+func (b *opBucket) cancelNow() {
+	b.mu.Lock()
+	b.cancelled = true
+	if b.cancel != nil {
+		b.cancel()
+	}
+	b.mu.Unlock()
+}
+
+// afterOp is called under mu once operation n was carried out.
+func (b *opBucket) afterOp(n int) {
+	if b.cancelAfterOp > 0 && n == b.cancelAfterOp {
+		b.cancelled = true
+		if b.cancel != nil {
+			b.cancel()
+		}
+	}
+}
+
 func (b *opBucket) mutate(kind, name string, apply func() error) error {
 	b.mu.Lock()
 	b.ops++
 	b.muts++
 	o := opRec{N: b.ops, Mut: b.muts, Kind: kind, Name: name}
+	if b.cancelled {
+		o.Err = true
+		b.log = append(b.log, o)
+		b.mu.Unlock()
+		return context.Canceled
+	}
 	if b.frozen || (b.freezeMut > 0 && (o.Mut > b.freezeMut || (o.Mut == b.freezeMut && b.freezeBefore))) {
 		b.frozen = true
 		b.mu.Unlock()
@@ -135,6 +173,7 @@ func (b *opBucket) mutate(kind, name string, apply func() error) error {
 	if err == nil && b.observe != nil {
 		b.observe(o)
 	}
+	b.afterOp(o.N)
 	parkAfter := b.freezeMut > 0 && o.Mut == b.freezeMut
 	if parkAfter {
 		b.frozen = true
@@ -152,12 +191,18 @@ func (b *opBucket) read(kind, name string) error {
 	defer b.mu.Unlock()
 	b.ops++
 	o := opRec{N: b.ops, Kind: kind, Name: name}
+	if b.cancelled {
+		o.Err = true
+		b.log = append(b.log, o)
+		return context.Canceled
+	}
 	if b.failOp == o.N {
 		o.Err = true
 		b.log = append(b.log, o)
 		return errVerifInjected
 	}
 	b.log = append(b.log, o)
+	b.afterOp(o.N)
 	return nil
 }
 
